@@ -158,6 +158,14 @@ Theorem C07_cq_exact_quantile : forall s log, reach s log -> cbp s = 0 -> forall
   (forall w, 0 <= w < len log -> quantile_w Z (qview s) w false = Some (nth (Z.to_nat w) (isort log) d)).
 Proof. intros s log R S d. split; intros w H; [now apply P_exact_quantile_incl|now apply P_exact_quantile_excl]. Qed.
 
+(* the split point check of the sorted view BEFORE fixes/07_cq_split_points_comparator.patch used Comparator() instead of
+   the stored comparator instance: under an instance that orders the other way valid split points were refused and
+   reversed ones answered *)
+Theorem C07_cq_split_check_default_comparator_refuted :
+  exists sp, splits_ok Z Z.ltb sp = true /\ splits_ok_default_cmp sp = false /\
+             splits_ok Z Z.ltb (rev sp) = false /\ splits_ok_default_cmp (rev sp) = true.
+Proof. exact cq_split_check_default_comparator_refuted. Qed.
+
 (* every state the runner reaches by replaying reported outcomes of a history is covered by the theorems above *)
 Theorem C07_cq_replayed_states_reachable : forall q cs s rest, wf q -> replay (exec q) cs = Some (s, rest) ->
   reach s (inputs q).
@@ -208,3 +216,4 @@ Print Assumptions C07_cq_nan_refused_or_ignored.
 Print Assumptions C07_cq_exact_rank.
 Print Assumptions C07_cq_exact_quantile.
 Print Assumptions C07_cq_replayed_states_reachable.
+Print Assumptions C07_cq_split_check_default_comparator_refuted.
